@@ -62,6 +62,10 @@ class BuiltWorld:
             real_par.sort(reverse=True)
             bases = tuple(self.classes[p] for p in real_par)
             nsd = {"__module__": "vfworld", "__qualname__": name}
+            if w.get("eq_all"):
+                # instances of different classes compare (and hash) equal: dispatch must go by class, never by value
+                nsd["__eq__"] = lambda self, other: True
+                nsd["__hash__"] = lambda self: 7
             for a in attrs[c - 1]:
                 nsd[a] = lambda self: None
             # structural protocols implemented by this class
